@@ -15,7 +15,25 @@ Inductive case :=
 | RoundTrip (equal : bool)
 (* a topology stored by the real StoreTopology: the bytes of the file, and whether the real getter
    returned an equal value *)
-| TopoFile (t : topo) (file : string) (equal : bool).
+| TopoFile (t : topo) (file : string) (equal : bool)
+(* a HISTORY of 2..4 real stores on the same file, each executed in its own child process under strace
+   over whatever the previous ones left in the directory; a store runs to completion (Done), has its
+   write fail after k bytes (RLIMIT_FSIZE = k, SIGXFSZ ignored: Failed) or is killed (RLIMIT_FSIZE = k
+   with the default action of SIGXFSZ, or SIGKILL on entry of its fchmod / fsync / rename: Died).
+   [old] = the file before, holding value number [v0]; per attempt: number of its value, fate, the bytes
+   a complete store of the value writes, the observed system calls, what the real getter returned
+   afterwards and the bytes found in the file *)
+| History (g : N) (old : bytes) (v0 : N) (atts : list hatt)
+
+with hatt := mkHAtt (h_vid : N) (h_fate : fate) (h_data : bytes) (h_tr : list op) (h_read : reading)
+                    (h_file : bytes).
+
+Definition h_vid (a : hatt) := let (v, _, _, _, _, _) := a in v.
+Definition h_fate (a : hatt) := let (_, f, _, _, _, _) := a in f.
+Definition h_data (a : hatt) := let (_, _, d, _, _, _) := a in d.
+Definition h_tr (a : hatt) := let (_, _, _, tr, _, _) := a in tr.
+Definition h_read (a : hatt) := let (_, _, _, _, r, _) := a in r.
+Definition h_file (a : hatt) := let (_, _, _, _, _, b) := a in b.
 
 (* contents are written by the runner as [bytes_of_string "..."] (printable ASCII, the files are JSON)
    or [unhex "..."]; they are decoded once, before the closures are built (vm_compute is call-by-value) *)
@@ -28,13 +46,43 @@ Fixpoint outcomes_eqb (a b : list outcome) : bool :=
   | _, _ => false
   end.
 
+(* model state before each attempt of a history *)
+Fixpoint hist_states (s : fs) (atts : list hatt) : list (fs * hatt) :=
+  match atts with
+  | [] => []
+  | a :: r => (s, a) :: hist_states (run s (h_tr a)) r
+  end.
+
+(* model of a history: every observed attempt has the atomic-replace shape and does not depend on
+   leftovers, the model run on the observed calls holds the bytes found in the file, a completed store
+   leaves exactly its value's bytes, a failed one the previous bytes, and the getter returns the value
+   whose bytes are in the file *)
+Fixpoint hist_agree (s : fs) (prev : reading) (atts : list hatt) : bool :=
+  match atts with
+  | [] => true
+  | a :: r =>
+      let s' := run s (h_tr a) in
+      let now := s' 0%N in
+      let mr := if obytes_eqb now (Some (h_data a)) then RVal (h_vid a) else prev in
+      atomic_replace_shape 0%N (h_tr a) && determined [0%N] (h_tr a)
+      && obytes_eqb now (Some (h_file a))
+      && match h_fate a with
+         | Done => obytes_eqb now (Some (h_data a))
+         | Failed => obytes_eqb now (s 0%N)
+         | Died => obytes_eqb now (s 0%N) || obytes_eqb now (Some (h_data a))
+         end
+      && reading_eqb (h_read a) mr
+      && hist_agree s' mr r
+  end.
+
 Definition agree (c : case) : bool :=
   match c with
   | Trace g old tr final =>
-      atomic_replace_shape 0%N tr && obytes_eqb (run (fs0 old) tr 0%N) (Some final)
+      atomic_replace_shape 0%N tr && determined [0%N] tr && obytes_eqb (run (fs0 old) tr 0%N) (Some final)
   | Sweep len obs => outcomes_eqb (sweep_model (N.to_nat len)) obs
   | RoundTrip e => e
   | TopoFile t file e => String.eqb (print_topo t) file
+  | History g old v0 atts => hist_agree (fs0 old) (RVal v0) atts
   end.
 
 Definition judge (c : case) : bool :=
@@ -43,6 +91,12 @@ Definition judge (c : case) : bool :=
   | Sweep len obs => sweep_ok obs
   | RoundTrip e => e
   | TopoFile t file e => e && otopo_eqb (parse_topo file) t
+  (* the specification over histories on what the real getter returned after every attempt, and the
+     crash-point specification of every observed attempt in the state the earlier ones left *)
+  | History g old v0 atts =>
+      hist_ok (RVal v0) (map (fun a => (h_vid a, h_fate a, h_read a)) atts)
+      && forallb (fun sa : fs * hatt => crash_safe_b (N.to_nat g) (fst sa) 0%N (h_tr (snd sa)))
+                 (hist_states (fs0 old) atts)
   end.
 
 Definition tag (c : case) : N :=
@@ -51,6 +105,7 @@ Definition tag (c : case) : N :=
   | Sweep _ _ => 2
   | RoundTrip _ => 3
   | TopoFile t _ _ => match tpeers t with [] => 4 | _ => 5 end
+  | History _ _ _ atts => if forallb (fun a => fate_eqb (h_fate a) Done) atts then 6 else 7
   end%N.
 
 Definition check_all := check_cases agree judge tag.
